@@ -203,6 +203,18 @@ def state_snapshot():
 # ---------------------------------------------------------------------------------------------
 # generation
 # ---------------------------------------------------------------------------------------------
+FAMILY = {}
+for _fam, _groups in {
+    "search": ["kdtree", "hash_based", "symdel", "db", "validation", "tcrdist_nn"],
+    "stat": ["pc", "entropy", "edge", "chao", "sets", "subsample", "powerlaw"],
+    "dist": ["pdist", "pcDelta", "downsample", "background", "neighbors", "hclust", "metric"],
+    "plot": ["rankfreq", "density", "logos", "labelaxes", "colors", "clustermap", "legend"],
+    "table": ["standardize", "valid", "multimerge", "util", "graph"],
+}.items():
+    for _g in _groups:
+        FAMILY[_g] = _fam
+
+
 def same_group_pairs():
     ops = _cat().OPS
     names = sorted(ops)
@@ -233,12 +245,22 @@ def generate(seed, tier, index=0):
         p = rng.choice(pairs)
         seq.extend(p)
         sw["forced_pair"] = list(p)
+    elif rng.random() < 0.5:
+        # polluter and victim from the same family (groups that share helpers), not necessarily the same group
+        a = rng.choice(names)
+        fam = FAMILY.get(ops[a].group)
+        b = rng.choice([n for n in names if FAMILY.get(ops[n].group) == fam])
+        seq.extend([a, b])
+        sw["forced_pair"] = [a, b]
     pool = [n for n in names if ops[n].group in enabled]
     while len(seq) < sw["n_ops"]:
         used_groups = sorted(set(ops[n].group for n in seq))
         if seq and rng.random() < sw["coschedule"]:
             g = rng.choice(used_groups)
-            cands = [n for n in names if ops[n].group == g]
+            if rng.random() < 0.6:
+                cands = [n for n in names if ops[n].group == g]
+            else:
+                cands = [n for n in names if FAMILY.get(ops[n].group) == FAMILY.get(g)]
         else:
             cands = pool
         n = rng.choice(cands)
